@@ -258,5 +258,5 @@ fn main() {
     let nt = cases.iter().filter(|c| c.nontrivial).count();
     write_cases(&args, "C08",
         "From Coq Require Import ZArith List NArith.\nFrom Falcon Require Import Base.Res IL.Const Mem.PagedTypes Mem.Paged Mem.C08Check.\nImport ListNotations.\nLocal Open Scope Z_scope.",
-        "ck", &cases, 16, serde_json::json!({"nontrivial_histories": nt}));
+        "ck", &cases, std::cmp::max(16, (cases.len() + 249) / 250), serde_json::json!({"nontrivial_histories": nt}));
 }
